@@ -1,10 +1,12 @@
 #!/usr/bin/env python3
 """Systematic gap finder: syntactic mutants (tools/mutgen) of the files the claimed properties are anchored in.
-For every mutant that still compiles and that the repository's own tests accept, the quick tier of the
-properties anchored in that file is run against it (VERIF_REPO=<scratch worktree>; /repo is never touched).
-Results go to /verif/mutation_campaign/results.jsonl; survivors that no check notices are listed for review
-(most are equivalent mutants or outside every property; the rest are gaps to close)."""
-import json, os, re, shutil, subprocess, sys, time
+Stage 1 (parallel, scratch worktrees): does the mutant compile, and do the repository's own tests accept it?
+Stage 2 (sequential, uses all cores): for every survivor the quick tier of the properties anchored in that file
+is run against it (VERIF_REPO=<scratch worktree>; /repo is never touched).
+Results: /verif/mutation_campaign/results.jsonl. Survivors that no check notices (status MISSED) are reviewed by
+hand: most are equivalent mutants or outside every property; the rest are gaps to close."""
+import json, os, re, shutil, subprocess, sys
+from concurrent.futures import ThreadPoolExecutor
 FILES = {
  "kmipserver/conn.go": ["C08", "C16"],
  "kmipserver/server.go": ["C16", "C08"],
@@ -17,8 +19,8 @@ FILES = {
  "ttlv/io.go": ["C07", "C08", "C11"],
 }
 CLIENT_FUNCS = {"DialContext","CloneCtx","Clone","Close","reconnect","doRountrip","Roundtrip","negotiateVersion","Request","Batch","BatchOpt","ExecContext","Unwrap","WithKmipVersions","EnforceVersion","Version"}
-WT = "/tmp/mutwt"
 OUT = "/verif/mutation_campaign"
+NPAR = 5
 env = dict(os.environ, GOFLAGS="-mod=mod", GOPROXY="off"); env.pop("GOSUMDB", None); env.pop("GOTOOLCHAIN", None)
 def sh(cmd, cwd, timeout=1200, e=env):
     try:
@@ -26,16 +28,28 @@ def sh(cmd, cwd, timeout=1200, e=env):
         return p.returncode, p.stdout + p.stderr
     except subprocess.TimeoutExpired:
         return 124, "timeout"
+def stage1(job):
+    k, f, src, desc, mid = job
+    wt = f"/tmp/mutwt-{k}"
+    sh("git checkout -- .", wt)
+    shutil.copy(src, f"{wt}/{f}")
+    rc, out = sh("go build ./...", wt, 300)
+    if rc != 0: return mid, "uncompilable"
+    rc, out = sh("go test -vet=off -count=1 -timeout 60s ./kmipserver ./kmipclient ./kmiptest ./ttlv", wt, 200)
+    return mid, ("killed-by-suite" if rc != 0 else "survivor")
 def main():
-    only = sys.argv[1:] 
+    only = sys.argv[1:]
     os.makedirs(OUT, exist_ok=True)
-    done = set()
     res_path = f"{OUT}/results.jsonl"
+    done = set()
     if os.path.exists(res_path):
         for l in open(res_path):
             done.add(json.loads(l)["id"])
-    sh(f"git -C /repo worktree remove --force {WT}", "/")
-    rc, out = sh(f"git -C /repo worktree add --detach {WT} HEAD", "/"); assert rc == 0, out
+    wts = list(range(NPAR)) + ["check"]
+    for k in wts:
+        sh(f"git -C /repo worktree remove --force /tmp/mutwt-{k}", "/")
+        rc, out = sh(f"git -C /repo worktree add --detach /tmp/mutwt-{k} HEAD", "/"); assert rc == 0, out
+    jobs = []
     for f, props in FILES.items():
         if only and f not in only: continue
         d = f"/dev/shm/mut/{f.replace('/', '_')}"
@@ -45,34 +59,29 @@ def main():
             mid = f"{f}#{name[:-3]}"
             if mid in done: continue
             desc = open(f"{d}/{name[:-3]}.txt").read().strip()
-            fn = desc.split(":")[1].split()[1] if ":" in desc else ""
             m = re.match(r"\S+ (\w+):", desc)
             fn = m.group(1) if m else ""
             if f == "kmipclient/client.go" and fn not in CLIENT_FUNCS: continue
-            rec = {"id": mid, "desc": desc, "file": f}
-            sh("git checkout -- .", WT)
-            shutil.copy(f"{d}/{name}", f"{WT}/{f}")
-            t0 = time.time()
-            rc, out = sh("go build ./... ", WT, 300)
-            if rc != 0:
-                rec["status"] = "uncompilable"
-            else:
-                rc, out = sh("go test -vet=off -count=1 -timeout 75s ./kmipserver ./kmipclient ./kmiptest ./ttlv", WT, 240)
-                if rc != 0:
-                    rec["status"] = "killed-by-suite"
-                else:
-                    rec["status"] = "MISSED"; rec["checks"] = {}
-                    for p in props:
-                        e2 = dict(os.environ, VERIF_REPO=WT)
-                        rc, out = sh(f"./check run {p} --tier quick", "/verif", 1500, e2)
-                        rules = sorted(set(re.findall(r"rule=(\S+)", out)))
-                        rec["checks"][p] = {"exit": rc, "rules": rules}
-                        if rc == 1:
-                            rec["status"] = f"detected:{p}"; break
-                        if rc == 2:
-                            rec["status"] = f"trouble:{p}"; rec["trouble"] = out[-600:]; break
-            rec["wall_s"] = round(time.time() - t0, 1)
+            jobs.append((f, f"{d}/{name}", desc, mid))
+    print(len(jobs), "mutants to process", flush=True)
+    wtc = "/tmp/mutwt-check"
+    for i in range(0, len(jobs), NPAR):
+        batch = jobs[i:i+NPAR]
+        with ThreadPoolExecutor(NPAR) as ex:
+            results = list(ex.map(stage1, [(k,)+b for k, b in enumerate(batch)]))
+        for (f, src, desc, mid), (_, status) in zip(batch, results):
+            rec = {"id": mid, "desc": desc, "file": f, "status": status}
+            if status == "survivor":
+                sh("git checkout -- .", wtc); shutil.copy(src, f"{wtc}/{f}")
+                rec["status"] = "MISSED"; rec["checks"] = {}
+                for p in FILES[f]:
+                    e2 = dict(os.environ, VERIF_REPO=wtc)
+                    rc, out = sh(f"./check run {p} --tier quick", "/verif", 1500, e2)
+                    rec["checks"][p] = {"exit": rc, "rules": sorted(set(re.findall(r"rule=(\S+)", out)))}
+                    if rc == 1: rec["status"] = f"detected:{p}"; break
+                    if rc == 2: rec["status"] = f"trouble:{p}"; rec["trouble"] = out[-600:]; break
             with open(res_path, "a") as fo: fo.write(json.dumps(rec) + "\n")
             print(rec["status"], "|", desc, flush=True)
-    sh(f"git -C /repo worktree remove --force {WT}", "/")
+    for k in wts:
+        sh(f"git -C /repo worktree remove --force /tmp/mutwt-{k}", "/")
 main()
